@@ -61,9 +61,11 @@ def body(c):
                 attrs["disc"] += bool(s["disc"])
     c.cov["sets_with_attributes"] = attrs
     d = vlib.scratch("thrtrace-")
-    runs = [("thr", ["-prefetch", "off"]), ("vlogpct", ["-prefetch", "on", "-psize", "1"])]
+    # thrup = thr, but the first re-open raises ValueThreshold from 32 to 512 (values written to the
+    # value log before must survive GC and read back although they are now below the threshold)
+    runs = [("thrup", ["-prefetch", "off"]), ("vlogpct", ["-prefetch", "on", "-psize", "1"])]
     if not q:
-        runs += [("thr", ["-prefetch", "on", "-psize", "100"]), ("vlogpct", ["-prefetch", "off"]), ("thr+enc", []),
+        runs += [("thr", ["-prefetch", "on", "-psize", "100"]), ("thrup+zstd", ["-prefetch", "on", "-psize", "2"]), ("vlogpct", ["-prefetch", "off"]), ("thr+enc", []),
                  ("vlogpct+zstd", ["-prefetch", "on", "-psize", "2"]), ("default", []), ("inmem", [])]
     stats = {}
     total_lines = 0
